@@ -9,6 +9,7 @@ import (
 	"errors"
 	"fmt"
 	"math"
+	"strconv"
 	"strings"
 
 	"github.com/Comcast/sheens/core"
@@ -36,6 +37,8 @@ const (
 	NativeNilExec    = "nnilexec"    // native only: return (nil, nil)
 	NativeNilBs      = "nnilbs"      // native only: return (execution with nil bindings, nil)
 	MutateDeep       = "mutdeep"     // A = dotted path under bindings: js mutates in place
+	SetCycle         = "setcycle"    // A=key: bind a self-referential object (js only)
+	Raw              = "raw"         // A = ECMAScript statements (js only; not modelled)
 )
 
 type Op struct {
@@ -126,6 +129,11 @@ func (p *Prog) JS() string {
 			b.WriteString("for (;;) { _.ctx.Value(\"tick\"); }\n")
 		case Tick:
 			b.WriteString("_.ctx.Value(\"tick\");\n")
+		case SetCycle:
+			fmt.Fprintf(&b, "var cyc2 = {name: \"a\"}; cyc2.self = cyc2; bs[%s] = cyc2;\n", js(o.A))
+		case Raw:
+			b.WriteString(o.A)
+			b.WriteString("\n")
 		case MutateDeep:
 			b.WriteString("bs")
 			for _, part := range strings.Split(o.A, ".") {
@@ -336,16 +344,29 @@ func (p *Prog) Model(bs map[string]interface{}) Result {
 }
 
 func setPath(m map[string]interface{}, path []string, v interface{}) bool {
+	var cur interface{} = m
 	for i, k := range path {
-		if i == len(path)-1 {
-			m[k] = v
-			return true
-		}
-		nx, ok := m[k].(map[string]interface{})
-		if !ok {
+		last := i == len(path)-1
+		switch c := cur.(type) {
+		case map[string]interface{}:
+			if last {
+				c[k] = v
+				return true
+			}
+			cur = c[k]
+		case []interface{}:
+			idx, err := strconv.Atoi(k)
+			if err != nil || idx < 0 || idx >= len(c) {
+				return false
+			}
+			if last {
+				c[idx] = v
+				return true
+			}
+			cur = c[idx]
+		default:
 			return false
 		}
-		m = nx
 	}
 	return false
 }
